@@ -81,6 +81,14 @@ def check_text(text, plain):
             return None
     except Exception:
         return None
+    # the minifier has no comment handlers: a captured tree minifies to the text of the comment-free tree
+    from calmjs.parse.unparsers.es5 import minify_print
+    try:
+        mo, mp = minify_print(t1), minify_print(parse(plain))
+    except Exception as e:
+        return 'minifying a tree with captured comments raises %s: %s' % (type(e).__name__, e)
+    if mo != mp:
+        return 'minified text of the tree with captured comments %r differs from that of the comment-free tree %r' % (mo, mp)
     out = pretty_print(t1)
     try:
         t2 = parse(out, with_comments=True)
@@ -241,7 +249,10 @@ def main():
                 ('ID', 'EQ', 'LBRACE', 'ID_GET', 'ID', 'LPAREN', 'RPAREN', 'LBRACE', 'RBRACE', 'COMMA', 'ID_SET', 'ID', 'LPAREN', 'ID', 'RPAREN', 'LBRACE', 'RBRACE', 'RBRACE', 'SEMI'),
                 ('ID_GET', 'EQ', 'ID_SET', 'SEMI'), ('ID', 'PERIOD', 'ID_GET', 'LPAREN', 'ID_SET', 'RPAREN', 'SEMI'),
                 ('ID', 'EQ', 'LBRACE', 'ID_GET', 'ID_GET', 'LPAREN', 'RPAREN', 'LBRACE', 'RBRACE', 'RBRACE', 'SEMI'),
-                ('ID', 'EQ', 'ID_GET', 'PLUS', 'ID_SET', 'SEMI')]
+                ('ID', 'EQ', 'ID_GET', 'PLUS', 'ID_SET', 'SEMI'),
+                # reserved words as property names before a slash / a line break
+                ('ID', 'EQ', 'ID', 'PERIOD', 'RETURN', 'DIV', 'NUMBER', 'DIV', 'ID', 'SEMI'), ('ID', 'EQ', 'ID', 'PERIOD', 'IF', 'LPAREN', 'ID', 'RPAREN', 'DIV', 'NUMBER', 'DIV', 'ID', 'SEMI'),
+                ('ID', 'EQ', 'ID', 'PERIOD', 'TYPEOF', 'PERIOD', 'IN', 'DIV', 'NUMBER', 'SEMI')]
     structs = list(dict.fromkeys(structs))
     _TL['sp'] = sp
     chunks = [structs[i::64] for i in range(64)]
